@@ -555,6 +555,7 @@ class Instance:
                 self.rpc = RootRPCInterface(subs)
                 self.supvisors = sd.supvisors
                 self.rpcif = self.rpc.supvisors
+                self._tap_publications()
                 opts.httpservers = [(opts.server_configs[0], FakeHttpServer(self.rpc))]
                 opts.mood = SupervisorStates.RUNNING
                 # statistics collector seam: never fork a psutil process
@@ -565,6 +566,17 @@ class Instance:
                 events.notify(events.SupervisorRunningEvent())
         finally:
             sys.argv = saved_argv
+
+    def _tap_publications(self):
+        """ Record every publication at its source (before the proxies filter by peer state). """
+        handler = self.supvisors.rpc_handler
+        orig = handler.push_publication
+        inst, sim = self, self.sim
+
+        def push_publication(ptype, body):
+            sim.on_publication(inst, ptype, body)
+            return orig(ptype, body)
+        handler.push_publication = push_publication
 
     def _install_collector(self):
         sv = self.supvisors
@@ -685,6 +697,12 @@ class Sim:
         self.rpc_filter = None   # callable(rec) -> None|'fault'|'resp_lost'
         self.steps = 0
         self.max_steps = config.get('max_steps', 400000)
+        self.aborted = None      # set to a reason when the run is cut short (e.g. request storm)
+        self.storm_key = None
+        self.storm_count = 0
+        self.storm_t0 = 0
+        self.wall0 = real_time.time()
+        self.wall_cap = config.get('wall_cap', 60.0)
         self.scratch = scratch or tempfile.mkdtemp(prefix='supvsim-')
         self._own_scratch = scratch is None
         self.ev_digest = hashlib.sha256()
@@ -752,16 +770,19 @@ class Sim:
     def run(self, until_s):
         until_us = int(until_s * US)
         heap = self.heap
-        while heap and heap[0][0] <= until_us:
+        while heap and heap[0][0] <= until_us and self.aborted is None:
             t_us, seq, fn, args = heapq.heappop(heap)
             if t_us > self.now_us:
                 self.now_us = t_us
             self.steps += 1
             if self.steps > self.max_steps:
                 raise HarnessError('step cap reached (%d)' % self.max_steps)
+            if not self.steps & 1023 and real_time.time() - self.wall0 > self.wall_cap:
+                raise HarnessError('wall cap reached (%.0f s) at sim t=%.1f after %d steps'
+                                   % (self.wall_cap, self.now, self.steps))
             self.cur_event_seq = seq
             fn(*args)
-        if self.now_us < until_us:
+        if self.now_us < until_us and self.aborted is None:
             self.now_us = until_us
 
     def note(self, *items):
@@ -802,6 +823,12 @@ class Sim:
             f = getattr(obs, 'on_boot', None)
             if f:
                 f(self, inst)
+
+    def on_publication(self, inst, ptype, body):
+        for obs in self.observers:
+            f = getattr(obs, 'on_publication', None)
+            if f:
+                f(self, inst, ptype, body)
 
     def _slice(self, inst):
         if not inst.alive:
@@ -1258,6 +1285,17 @@ class Sim:
                 rec['raw'] = params[1]
         else:
             rec['args'] = list(params)
+            # request storm detector: the same request repeated at XML-RPC speed is a livelock of the real code
+            key = (rec['src'], rec['dst'], m, repr(rec['args']))
+            if key == self.storm_key and self.now_us - self.storm_t0 < 2 * US:
+                self.storm_count += 1
+                if self.storm_count > 300 and self.aborted is None:
+                    self.aborted = 'storm'
+                    self.storm = {'src': rec['src'], 'dst': rec['dst'], 'method': m, 'args': rec['args'],
+                                  'outcome': rec.get('outcome'), 'fault': rec.get('fault'), 't_us': self.now_us}
+                    self.stats['storm'] += 1
+            else:
+                self.storm_key, self.storm_count, self.storm_t0 = key, 1, self.now_us
         self.wire.append(rec)
         self.note('rpc', rec['src'], rec['dst'], m, rec.get('header'), rec['outcome'])
         for obs in self.observers:
